@@ -212,6 +212,13 @@ class Checker:
         """
         finfo = self.fileinfo
 
+        # BEP 52 single file torrents carry the length in the file tree only
+        if ("length" not in self.info and self.meta_version == 2
+                and os.path.isfile(self.root)):
+            tree = self.info["file tree"]
+            if list(tree) == [self.name] and "" in tree[self.name]:
+                self.info["length"] = tree[self.name][""]["length"]
+
         if "length" in self.info:
             self.log_msg("%s points to a single file", self.root)
             self.total = self.info["length"]
